@@ -167,6 +167,8 @@ pub struct Vt<I: 'static> {
     /// the same document decoded as a serde-derived reference newtype of the same name
     pub de_ref: Option<fn(Fmt, Pos, &[u8]) -> Result<Vec<I>, String>>,
     pub ser_ref: Option<fn(I, Fmt) -> Result<Vec<u8>, String>>,
+    /// deserialize_in_place into an existing value built from the first argument: (succeeded, value afterwards)
+    pub de_in_place: Option<fn(I, Fmt, &[u8]) -> Option<(bool, I)>>,
     pub ser: Option<fn(I, Fmt) -> Option<Result<Vec<u8>, String>>>,
     pub arbitrary: Option<fn(&[u8]) -> Result<I, String>>,
 
@@ -226,6 +228,7 @@ impl<I: 'static> Vt<I> {
             de: None,
             de_key: None,
             de_ref: None,
+            de_in_place: None,
             ser_ref: None,
             ser: None,
             arbitrary: None,
